@@ -215,11 +215,12 @@ def Node.search (n : Node) (sid : String) (now : Nat) : Option (List Row) :=
 /-! ### api/server/api.go -/
 
 /-- `Wrapper.GetPresentations`: the optional `timestamp` query parameter defaults to 0 -/
+def apiTimestamp : Option Int → Int
+  | some t => t
+  | none => 0
+
 def apiGet (n : Node) (sid : String) (f : Fwd) (timestamp : Option Int) : GetOut :=
-  let ts := match timestamp with
-    | some t => t
-    | none => 0
-  n.get sid f ts
+  n.get sid f (apiTimestamp timestamp)
 
 /-- which sentinel errors `errors.Is` finds in an error -/
 structure ErrKind where
